@@ -8,7 +8,7 @@
 #
 import re
 
-from ural.patterns import QUERY_VALUE_IN_URL_TEMPLATE
+from ural.patterns import QUERY_VALUE_IN_URL_TEMPLATE, PROTOCOL_RE
 from ural.utils import unquote, urljoin
 
 OBVIOUS_REDIRECTS_RE = re.compile(
@@ -66,7 +66,12 @@ def infer_redirection(url, recursive=True):
 
             # Basic relative url
             elif potential_target.startswith("/"):
-                target = urljoin(url, potential_target)
+                if PROTOCOL_RE.match(url):
+                    target = urljoin(url, potential_target)
+
+                # NOTE: without a protocol, the host would be taken for a path
+                else:
+                    target = urljoin("http://" + url, potential_target)[7:]
 
             # Idiotic youtube redirections
             elif "youtube.com/redirect?" in url:
